@@ -104,8 +104,32 @@ public:
         {
             m_max_abs_value = std::fabs(fx);
         }
+        if (m_record)
+        {
+            eval_t e;
+            e.f = fx;
+            e.x.resize(static_cast<size_t>(size()));
+            e.g.resize(static_cast<size_t>(size()));
+            for (tensor_size_t i = 0; i < size(); ++i)
+            {
+                e.x[static_cast<size_t>(i)] = m_xbuf(i);
+                e.g[static_cast<size_t>(i)] = m_gbuf(i);
+            }
+            m_history.push_back(std::move(e));
+        }
         return fx;
     }
+
+    // optional trace of the counted evaluations (point, value, gradient), in call order
+    struct eval_t
+    {
+        std::vector<double> x, g;
+        double              f{0.0};
+    };
+
+    void record(const bool on) { m_record = on; }
+
+    const std::vector<eval_t>& history() const { return m_history; }
 
     // largest finite |f| the solver has been shown (counted evaluations only)
     double max_abs_value() const { return m_max_abs_value; }
@@ -144,6 +168,8 @@ private:
     mutable int64_t   m_gcount{0};
     mutable double    m_max_abs_value{0.0};
     int64_t           m_limit{0};
+    bool              m_record{false};
+    mutable std::vector<eval_t> m_history;
 };
 
 // ---------------------------------------------------------------------------------------
